@@ -37,6 +37,27 @@ class TSPAdapter(TourAdapter):
         from rl4co.envs import TSPEnv
         return TSPEnv(generator_params={"num_loc": variant["num_loc"]}, check_solution=False)
 
+    # witness of the repaired checker defect (fix 5d5f57a): 3 nodes, [1, 0] never visits node 2
+    witnesses = (({"num_loc": 3, "dense": None}, [1, 0], "witness:n=3,[1,0]"),)
+
+    # witness of the repaired reward defect (fix aa30e65): three one-city instances in one batch
+    ONE_CITY = [[[0.1, 0.2]], [[0.7, 0.9]], [[0.3, 0.3]]]
+
+    def extra_items(self, ctx, pid, tier):
+        from vt.envprops import Item
+        if self.name != "tsp":
+            return []
+        variant = {"num_loc": 1}
+        env = self.make_env(variant)
+        td_b = TensorDict({"locs": torch.tensor(self.ONE_CITY, dtype=torch.float32)}, batch_size=[3])
+        eps, td_reset, td_fin, actions = envh.rollout(env, td_b, ctx.rng, choosers=["uniform"] * 3, pad_steps=0, max_steps=4)
+        envh.rewards_and_verdicts(env, td_fin, td_reset, actions, eps, self.reward_td)
+        self.route_reward_crash(eps)
+        meta = {"kind": "witness/three-one-city-instances"}
+        ctx.count("tsp/witness/three-one-city-instances")
+        return [Item(self, variant, env, td_b[r:r + 1].clone(), self.row_reset(td_reset, r, td_fin, meta), eps[r], dict(meta, chooser="uniform"),
+                     "batch3@%d" % r) for r in range(3)]
+
     # ---------------------------------------------------------------- instances
     def instances(self, env, variant, rng, tier):
         n = variant["num_loc"]
